@@ -40,7 +40,7 @@ ANCHORS = [
     ('pjrpc/server/dispatcher.py', 'AsyncDispatcher._handle_rpc_request'),
     ('pjrpc/server/dispatcher.py', 'AsyncDispatcher._handle_rpc_method'),
 ]
-FLOORS = {'*': {'schedules': 3000, 'shapes': 150, 'shapes-with>=2-completion-orders': 80, 'last-element-finishes-first': 50,
+FLOORS = {'*': {'schedules': 20000, 'shapes': 1000, 'shapes-with>=2-completion-orders': 80, 'last-element-finishes-first': 50,
                 'max-in-flight>=2:concurrent': 200, 'sequential-mode-shapes': 60, 'points:method': 500, 'points:middleware': 500,
                 'points:error-handler': 200, 'profile:notification': 100, 'profile:plain-method': 100, 'profile:rpc-error': 100,
                 'profile:exception': 100, 'elements:4': 2}}
@@ -254,16 +254,18 @@ def gen(ctx):
     three = [list(s) for s in itertools.product(P, repeat=3)]
     four = [list(s) for s in itertools.product(P, repeat=4)]
     if full:
-        shapes += three + rng.sample(four, 600)
+        shapes += three + rng.sample(four, 2500)
+        light = [0, 1, 5, 6, 8, 9, 10]      # profiles with <= 1 suspension point
+        shapes += [[rng.choice(light) for _ in range(5)] for _ in range(150)]
     else:
-        shapes += rng.sample(three, 140) + [[2, 2, 2], [3, 4, 7], [1, 9, 6]]
-        shapes += [[1, 1, 1, 1], [2, 1, 0, 6], [4, 8, 1, 7]] + rng.sample(four, 3)
+        shapes += three
+        shapes += [[1, 1, 1, 1], [2, 1, 0, 6], [4, 8, 1, 7]] + rng.sample(four, 40)
     # a few fixed heavy shapes: 4 elements x 2 points
     if full:
         shapes += [[2, 2, 2, 2], [3, 3, 2, 4], [7, 4, 3, 2]]
     for shape in shapes:
         yield 'shape', {'shape': shape, 'concurrent': True}
-        if full or len(shape) <= 2 or rng.random() < 0.5:
+        if full or len(shape) <= 3 or rng.random() < 0.5:
             yield 'shape', {'shape': shape, 'concurrent': False}
 
 
